@@ -92,7 +92,33 @@ func (e *Engine) nodeText(n ast.Node) string {
 }
 
 // load weaves the contracts into an overlay and builds SSA for the repository.
+// load builds the engine; a contract that does not compile against the current sources (a clause
+// mentions a field, variable or type that changed) is dropped - it becomes one failed obligation of
+// its function - and the load is retried, so that one stale contract does not take every other
+// function's obligations with it.
 func load(repo string) (*Engine, error) {
+	dropped := map[string]string{}
+	for round := 0; ; round++ {
+		e, culprits, err := loadOnce(repo, dropped)
+		if err == nil || len(culprits) == 0 || round >= 6 {
+			return e, err
+		}
+		progress := false
+		for k, why := range culprits {
+			if _, ok := dropped[k]; !ok {
+				dropped[k] = why
+				progress = true
+			}
+		}
+		if !progress {
+			return e, err
+		}
+	}
+}
+
+func contractKey(c *Contract) string { return c.PkgDir + "|" + c.FuncName }
+
+func loadOnce(repo string, dropped map[string]string) (*Engine, map[string]string, error) {
 	e := &Engine{repo: repo, spkgs: map[string]*ssa.Package{}, files: map[string]*ast.File{}, src: map[string][]byte{},
 		contractOf: map[*ssa.Function]*Contract{}, fnByKey: map[string]*ssa.Function{}, fnIDs: map[*ssa.Function]int{},
 		strConsts: map[string]string{}, f64s: map[float64]string{}, mods: map[*ssa.Function]*modInfo{},
@@ -102,17 +128,27 @@ func load(repo string) (*Engine, error) {
 	for _, d := range repoPkgs {
 		dir := filepath.Join(repo, d)
 		if err := w.loadDir(dir); err != nil {
-			return nil, err
+			return nil, nil, err
 		}
 		cf := filepath.Join(dir, "zz_verif_contracts.go")
 		if _, err := os.Stat(cf); err == nil {
 			cs, err := parseContractFile(cf)
 			if err != nil {
-				return nil, err
+				return nil, nil, err
 			}
 			e.contracts = append(e.contracts, cs...)
 		}
 	}
+	var kept []*Contract
+	for _, c := range e.contracts {
+		if why, bad := dropped[contractKey(c)]; bad {
+			c.Broken = why
+			e.orphans = append(e.orphans, c)
+			continue
+		}
+		kept = append(kept, c)
+	}
+	e.contracts = kept
 	for _, c := range e.contracts {
 		w.weave(c)
 	}
@@ -137,7 +173,7 @@ func load(repo string) (*Engine, error) {
 	}
 	pkgs, err := packages.Load(cfg, pats...)
 	if err != nil {
-		return nil, err
+		return nil, nil, err
 	}
 	var errs []string
 	packages.Visit(pkgs, nil, func(p *packages.Package) {
@@ -146,7 +182,15 @@ func load(repo string) (*Engine, error) {
 		}
 	})
 	if len(errs) > 0 {
-		return e, fmt.Errorf("package errors (contracts or sources do not compile):\n  %s", strings.Join(errs, "\n  "))
+		culprits := map[string]string{}
+		for _, er := range errs {
+			if c := w.contractAt(er, ov); c != nil {
+				if _, ok := culprits[contractKey(c)]; !ok {
+					culprits[contractKey(c)] = er
+				}
+			}
+		}
+		return e, culprits, fmt.Errorf("package errors (contracts or sources do not compile):\n  %s", strings.Join(errs, "\n  "))
 	}
 	e.pkgs = pkgs
 	e.fset = pkgs[0].Fset
@@ -169,7 +213,7 @@ func load(repo string) (*Engine, error) {
 	}
 	e.tc = newTypeConv()
 	e.index()
-	return e, nil
+	return e, nil, nil
 }
 
 func fnKey(f *ssa.Function) string {
